@@ -187,11 +187,42 @@ func (w *worker[T, JobType]) releaseWaiters(processing uint32) {
 		return
 	}
 
-	// Only release waiters if worker is paused or if running with an empty queue
-	if w.IsPaused() || (w.IsRunning() && w.queues.Len() == 0) {
-		// Broadcast to all waiters to signal they can continue
-		w.waiters.Broadcast()
+	// Waiters re-evaluate their own condition. Broadcasting under the mutex closes the gap between
+	// a waiter evaluating its condition and parking on the condition variable.
+	w.mx.Lock()
+	w.waiters.Broadcast()
+	w.mx.Unlock()
+}
+
+// reserve takes one processing slot for the job about to be dequeued, so that a job is at every
+// instant accounted for either by its queue's length or by curProcessing. It fails when the pool
+// is saturated or when the worker stopped running in the meantime.
+func (w *worker[T, JobType]) reserve() bool {
+	for {
+		c := w.curProcessing.Load()
+
+		if c >= w.concurrency.Load() {
+			return false
+		}
+
+		if w.curProcessing.CompareAndSwap(c, c+1) {
+			break
+		}
 	}
+
+	// Pause/Stop store the status first and look at curProcessing afterwards;
+	// looking at the status after taking the slot makes one of the two sides see the other.
+	if s := w.status.Load(); s == paused || s == stopped {
+		w.release()
+		return false
+	}
+
+	return true
+}
+
+// release gives a processing slot back and wakes the waiters if it was the last one.
+func (w *worker[T, JobType]) release() {
+	w.releaseWaiters(w.curProcessing.Add(^uint32(0)))
 }
 
 func (w *worker[T, JobType]) sendError(err error) {
@@ -233,9 +264,14 @@ func (w *worker[T, JobType]) Errs() <-chan error {
 
 // processNextJob processes the next Job in the queue.
 func (w *worker[T, JobType]) processNextJob() error {
+	if !w.reserve() {
+		return nil
+	}
+
 	queue, err := w.queues.next()
 
 	if err != nil {
+		w.release()
 		return fmt.Errorf("%w: %w", ErrGetNextQueue, err)
 	}
 
@@ -253,6 +289,7 @@ func (w *worker[T, JobType]) processNextJob() error {
 	}
 
 	if !ok {
+		w.release()
 		return ErrFailedToDequeue
 	}
 
@@ -266,24 +303,27 @@ func (w *worker[T, JobType]) processNextJob() error {
 	case []byte:
 		var err error
 		if v, err = parseToJob[T](value); err != nil {
+			w.release()
 			return err
 		}
 
 		if j, ok = v.(JobType); !ok {
+			w.release()
 			return ErrFailedToCastJob
 		}
 
 		j.setInternalQueue(queue)
 	default:
+		w.release()
 		return ErrFailedToCastJob
 	}
 
 	// a job cancelled before this point is skipped; one cancelled after it can no longer be closed
 	if !j.claim() {
+		w.release()
 		return nil
 	}
 
-	w.curProcessing.Add(1)
 	j.setAckId(ackId)
 
 	// then job will be process by the processSingleJob function inside spawnWorker
@@ -337,7 +377,7 @@ func (w *worker[T, JobType]) initPoolNode() *linkedlist.Node[pool.Node[JobType]]
 			w.sendError(err)
 		}
 		w.freePoolNode(node)
-		w.releaseWaiters(w.curProcessing.Add(^uint32(0)))
+		w.release()
 		w.metrics.incCompleted()
 		w.notifyToPullNextJobs()
 	})
@@ -441,6 +481,9 @@ func (w *worker[T, JobType]) goEventLoop() {
 					w.sendError(err)
 				}
 			}
+
+			// the queue may have been emptied without any job finishing (purge, cancelled jobs)
+			w.releaseWaiters(w.curProcessing.Load())
 		}
 	}(w.eventLoopSignal)
 }
